@@ -481,3 +481,26 @@ def graph_family(seed, count, nmax=5):
         d["name"] = "g%d_%d" % (seed, len(out))
         out.append(d)
     return out
+
+
+def exhaustive_two():
+    """ALL definitions over two action tasks in the grammar: every task has at most two transitions,
+    each (condition in always/succeeded/failed) -> one target among the later task and the engine
+    commands noop/fail; t2 must be reachable or a second root; both outcomes allowed everywhere."""
+    import itertools
+    conds = ["always", "succeeded", "failed"]
+
+    def edge_sets(targets):
+        edges = [(c, t) for c in conds for t in targets]
+        out = [()]
+        out += [(e,) for e in edges]
+        out += list(itertools.combinations(edges, 2))
+        return out
+    defs = []
+    for e1 in edge_sets(["t2", "noop", "fail"]):
+        for e2 in edge_sets(["noop", "fail"]):
+            tasks = {"t1": T(next=[dict(when=c, do=[t]) for c, t in e1]),
+                     "t2": T(next=[dict(when=c, do=[t]) for c, t in e2])}
+            d = D.wf("x2_%d" % len(defs), tasks, fates={"t1": ["s", "f"], "t2": ["s", "f"]})
+            defs.append(d)
+    return defs
